@@ -471,6 +471,8 @@ def call_method(interp, base, name, node, args, kwargs, st):
     if name == "get":
         if base.mapping is not None and args and args[0].has_const() and args[0].const in base.mapping:
             return base.mapping[args[0].const]
+        if base.mapping is not None and args and args[0].has_const() and isinstance(args[0].const, (str, int)):
+            return args[1] if len(args) > 1 else vconst(None)       # a literal table without this key: the default
         r = base.elem
         if len(args) > 1:
             r = join_vals(r, args[1])
